@@ -112,6 +112,13 @@ func (k *Keeper) EthereumTx(goCtx context.Context, msg *evmtypes.MsgEthereumTx) 
 		return nil, errorsmod.Wrap(err, "failed to unmarshal receipt")
 	}
 	// supply the fields those are used in sdk event construction
+	{
+		// logs are numbered consecutively across the whole block
+		startLogIndex := k.GetCumulativeLogCountTransient(ctx, true)
+		for i, log := range receipt.Logs {
+			log.Index = uint(startLogIndex) + uint(i)
+		}
+	}
 	receipt.TxHash = common.HexToHash(response.Hash)
 	if ethTx.To() == nil && !response.Failed() {
 		receipt.ContractAddress = crypto.CreateAddress(common.BytesToAddress(senderAccAddr), ethTx.Nonce())
